@@ -219,13 +219,14 @@ func VerifC11WarmRace() {
 	rt.SetClockMs(last + idleMs)
 	st.prev = 0
 	var allowed [2]float64
-	for i := 0; i < 2; i++ {
+	nT := 2
+	for i := 0; i < nT; i++ {
 		i := i
 		rt.Spawn(func() { allowed[i] = c.CalculateAllowedTokens(1, 0) })
 	}
 	rt.Join()
 	rt.Reach("c11.race")
-	for i := 0; i < 2; i++ {
+	for i := 0; i < nT; i++ {
 		rt.Assert(allowed[i] <= g.thr/float64(cold)*1.01+1e-9, "after idling, each of two simultaneous first requests is held to about threshold/coldFactor")
 	}
 }
